@@ -1,8 +1,180 @@
-(* C02 — property theorems (placeholder while the proofs are being written). *)
-From Coq Require Import List ZArith Bool.
-From V Require Import C02.Model.
+(* C02 — property theorems only (proofs in Proofs_*.v). Everything is over the FREE term algebra of the
+   hash primitives (C01.Term): equality of hash terms is syntactic, so the injectivity theorems say that the
+   ENCODINGS juno feeds to Pedersen/Poseidon are unambiguous and that every committed field reaches the hash
+   input. Collision resistance of the primitives themselves is out of scope (and not assumed). *)
+From Coq Require Import List ZArith Bool Lia.
+From V Require Import C01.Term C01.State C02.Model C02.Proofs_Enc C02.Proofs_Trie C02.Proofs_Tx C02.Proofs_Block C02.Proofs_Accept.
 Import ListNotations.
+Open Scope Z_scope.
 
-Theorem C02_reject_pure : forall chain cs b, accept chain cs b = None -> push chain cs b = cs.
-Proof. intros chain cs b H. unfold push. rewrite H. reflexivity. Qed.
+(* ConcatCounts: injective for tx count < 2^59 (above, the 256-bit word wraps modulo P), 64-bit other counts *)
+Theorem C02_concat_counts_injective : forall t1 e1 s1 b1 t2 e2 s2 b2,
+  0 <= t1 < 2^59 -> 0 <= t2 < 2^59 -> u64 e1 -> u64 e2 -> u64 s1 -> u64 s2 ->
+  concat_counts t1 e1 s1 b1 = concat_counts t2 e2 s2 b2 -> t1 = t2 /\ e1 = e2 /\ s1 = s2 /\ b1 = b2.
+Proof. exact concat_counts_injective. Qed.
+Print Assumptions C02_concat_counts_injective.
+
+(* every transaction kind and version of the model, and across kinds *)
+Theorem C02_tx_hash_injective : forall ch t1 t2, tx_ok t1 -> tx_ok t2 -> tx_hash ch t1 = tx_hash ch t2 -> t1 = t2.
+Proof. exact tx_hash_injective. Qed.
+Print Assumptions C02_tx_hash_injective.
+
+(* commitment tries (height 64, keyed by index): equal roots, equal leaf lists *)
+Theorem C02_commitment_injective : forall l1 l2, small (length l1) -> small (length l2) ->
+  leaves_ok l1 -> leaves_ok l2 -> commit_root TPos2 l1 = commit_root TPos2 l2 -> l1 = l2.
+Proof. exact commit_pos_injective. Qed.
+Print Assumptions C02_commitment_injective.
+
+Theorem C02_state_diff_hash_injective : forall d1 d2, updated_ok d1 -> updated_ok d2 ->
+  sd_hash d1 = sd_hash d2 -> diff_proj d1 = diff_proj d2.
+Proof. exact sd_hash_injective. Qed.
+Print Assumptions C02_state_diff_hash_injective.
+
+(* block hash, format >= 0.13.4 and format 0.13.2/0.13.3 *)
+Theorem C02_preimage_injective_0134 : forall b1 b2, block_wf b1 -> block_wf b2 ->
+  block_hash_0134 b1 = block_hash_0134 b2 -> committed_0134 b1 = committed_0134 b2.
+Proof. exact preimage_injective_0134. Qed.
+Print Assumptions C02_preimage_injective_0134.
+
+Theorem C02_preimage_injective_0132 : forall b1 b2, block_wf b1 -> block_wf b2 ->
+  block_hash_0132 b1 = block_hash_0132 b2 -> committed_0132 b1 = committed_0132 b2.
+Proof. exact preimage_injective_0132. Qed.
+Print Assumptions C02_preimage_injective_0132.
+
+(* block hash of the post-0.7 Pedersen format (version < 0.13.2): only number, root, sequencer, timestamp, the
+   two counts, parent, (tx hash, signature-as-hashed) and the events (from, keys, data) are committed *)
+Theorem C02_preimage_injective_post07 : forall b1 b2, block_wf b1 -> block_wf b2 -> sig_rule b1 = sig_rule b2 ->
+  block_hash_post07 b1 = block_hash_post07 b2 -> committed_post07 b1 = committed_post07 b2.
+Proof. exact preimage_injective_post07. Qed.
+Print Assumptions C02_preimage_injective_post07.
+
+(* whatever the protocol versions of the two blocks (the three formats never coincide) *)
+Theorem C02_preimage_injective : forall b1 b2 h, block_wf b1 -> block_wf b2 -> same_sig_rule b1 b2 ->
+  block_hash b1 = Some h -> block_hash b2 = Some h -> committed b1 = committed b2.
+Proof. exact preimage_injective. Qed.
+Print Assumptions C02_preimage_injective.
+
+(* a stored block: linked to the head, receipts pair with transactions, every transaction hash (block version >= 0.11.0, kinds juno recomputes) and the
+   block hash recompute, the old root is the commitment of the state the node holds (and, on the new state
+   backend [st = true], the root recorded in the head's header), and state + diff has exactly the declared root *)
+Theorem C02_accept_sound : forall ch st cs b cs', accept ch st cs b = Some cs' ->
+  linked cs b /\
+  Forall2 (fun t r => t_hash t = r_txhash r) (b_txs b) (b_rcpts b) /\
+  (tx_verified b = true -> Forall (tx_recomputes ch) (b_txs b)) /\
+  block_hash b = Some (b_hash b) /\
+  (st = true -> b_old_root b = cs_root cs) /\
+  commitment (pre_0_14 b) (cs_state cs) = b_old_root b /\
+  commitment (pre_0_14 b) (new_state cs b) = h_state_root (b_hdr b) /\
+  cs' = {| cs_head := Some (h_number (b_hdr b), b_hash b); cs_root := h_state_root (b_hdr b);
+           cs_state := new_state cs b; cs_blocks := b :: cs_blocks cs |}.
+Proof. exact accept_sound. Qed.
+Print Assumptions C02_accept_sound.
+
+(* a rejected block changes nothing, at any position of any history *)
+Theorem C02_reject_pure : forall ch st bs1 b bs2,
+  accept ch st (run ch st bs1) b = None -> run ch st (bs1 ++ b :: bs2) = run ch st (bs1 ++ bs2).
+Proof. exact reject_pure_run. Qed.
 Print Assumptions C02_reject_pure.
+
+(* a block that differs from a valid one in a committed field but carries its hash is rejected *)
+Theorem C02_tamper_rejected : forall ch st cs b b', block_wf b -> block_wf b' -> same_sig_rule b' b ->
+  block_hash b = Some (b_hash b) -> b_hash b' = b_hash b -> committed b' <> committed b ->
+  accept ch st cs b' = None.
+Proof. exact tamper_rejected. Qed.
+Print Assumptions C02_tamper_rejected.
+
+Theorem C02_tx_tamper_rejected : forall ch st cs b' t' body, In t' (b_txs b') -> tx_verified b' = true ->
+  tx_ok body -> tx_ok (t_body t') -> tx_hash ch body = t_hash t' -> t_body t' <> body ->
+  accept ch st cs b' = None.
+Proof. exact tx_tamper_rejected. Qed.
+Print Assumptions C02_tx_tamper_rejected.
+
+(* a declared root that is not the commitment of (held state + diff), an old root that is not the commitment
+   of the held state (on either backend; this includes the zero root on a non-empty chain and the root of any
+   older block), an old root that is not the head header's root (new backend), or a broken linkage: rejected *)
+Theorem C02_wrong_root_or_linkage_rejected : forall ch st cs b,
+  commitment (pre_0_14 b) (new_state cs b) <> h_state_root (b_hdr b) \/
+  commitment (pre_0_14 b) (cs_state cs) <> b_old_root b \/
+  (st = true /\ b_old_root b <> cs_root cs) \/ ~ linked cs b ->
+  accept ch st cs b = None.
+Proof. exact wrong_root_rejected. Qed.
+Print Assumptions C02_wrong_root_or_linkage_rejected.
+
+(* ---------- non-vacuity: a concrete chain over the term instance ---------- *)
+Definition ex_chain : Z := 393402133025997798000961.   (* "SN_SEPOLIA" *)
+Definition ex_v3 : v3c := {| v_tip := 5; v_l1 := {| rb_amount := 1; rb_price := 2 |}; v_l2 := {| rb_amount := 3; rb_price := 4 |};
+  v_l1d := Some {| rb_amount := 5; rb_price := 6 |}; v_paymaster := []; v_nonce_da := 0; v_fee_da := 1 |}.
+Definition ex_hdr (ver : Z * Z * Z) : header := {| h_number := 0; h_state_root := TC 0; h_sequencer := 1000; h_timestamp := 17;
+  h_tx_count := 2; h_event_count := 1; h_blob := true; h_l1_gas_wei := 1; h_l1_gas_fri := 2; h_l1_data_wei := 3;
+  h_l1_data_fri := 4; h_l2_wei := 5; h_l2_fri := 6; h_version_str := 52974952066612; h_ver := ver; h_parent := TC 0 |}.
+Definition ex_raw (ver : Z * Z * Z) (d : sdiff) : block := {|
+  b_hdr := ex_hdr ver;
+  b_txs := [ {| t_body := InvokeV3 false 77 1 ex_v3 [] [1; 2] []; t_sig := [9; 8]; t_hash := TC 0 |};
+             {| t_body := L1Handler false 5 6 7 [1]; t_sig := []; t_hash := TC 0 |} ];
+  b_rcpts := [ {| r_txhash := TC 0; r_fee := 3; r_msgs := [ {| m_from := 1; m_to := 2; m_payload := [3] |} ]; r_revert := None;
+                  r_l1gas := 1; r_l1datagas := 2; r_events := [ {| e_from := 4; e_keys := [1]; e_data := [] |} ] |};
+               {| r_txhash := TC 0; r_fee := 4; r_msgs := []; r_revert := Some 99; r_l1gas := 0; r_l1datagas := 0; r_events := [] |} ];
+  b_diff := d; b_hash := TC 0; b_old_root := TC 0 |}.
+Definition ex_d0 : sdiff := {| sd_deployed := [(100, 500)]; sd_replaced := []; sd_nonces := [(100, 1)];
+  sd_storage := [(100, [(1, 11)])]; sd_declared_v0 := [500]; sd_declared_v1 := []; sd_migrated := [] |}.
+Definition ex_d1 : sdiff := {| sd_deployed := []; sd_replaced := []; sd_nonces := []; sd_storage := [(100, [(2, 22)])];
+  sd_declared_v0 := []; sd_declared_v1 := [(600, 601)]; sd_migrated := [] |}.
+Definition ex_b0 := seal ex_chain empty_chain (ex_raw (0, 13, 4) ex_d0).
+Definition ex_cs1 := push ex_chain true empty_chain ex_b0.
+Definition ex_b1 := seal ex_chain ex_cs1 (ex_raw (0, 13, 2) ex_d1).
+
+Definition ex_cs2 := push ex_chain true ex_cs1 ex_b1.
+Definition ex_d2 : sdiff := {| sd_deployed := []; sd_replaced := []; sd_nonces := [(100, 2)]; sd_storage := [];
+  sd_declared_v0 := []; sd_declared_v1 := []; sd_migrated := [] |}.
+Definition ex_b2 := seal ex_chain ex_cs2 (ex_raw (0, 12, 3) ex_d2).
+
+(* all three formats: the sealed blocks are accepted one after the other, with either backend flag *)
+Example accept_nontrivial :
+  cs_head (run ex_chain true [ex_b0; ex_b1; ex_b2]) = Some (2, b_hash ex_b2) /\
+  length (cs_blocks (run ex_chain false [ex_b0; ex_b1; ex_b2])) = 3%nat.
+Proof. vm_compute. split; reflexivity. Qed.
+
+(* a tampered timestamp under the valid hash is rejected; so is the same block presented twice *)
+Definition ex_tampered : block :=
+  {| b_hdr := {| h_number := 1; h_state_root := h_state_root (b_hdr ex_b1); h_sequencer := 1000; h_timestamp := 18;
+                 h_tx_count := 2; h_event_count := 1; h_blob := true; h_l1_gas_wei := 1; h_l1_gas_fri := 2; h_l1_data_wei := 3;
+                 h_l1_data_fri := 4; h_l2_wei := 5; h_l2_fri := 6; h_version_str := 52974952066612; h_ver := (0, 13, 2);
+                 h_parent := h_parent (b_hdr ex_b1) |};
+     b_txs := b_txs ex_b1; b_rcpts := b_rcpts ex_b1; b_diff := b_diff ex_b1; b_hash := b_hash ex_b1; b_old_root := b_old_root ex_b1 |}.
+Example tamper_nontrivial :
+  accept ex_chain true ex_cs1 ex_tampered = None /\ accept ex_chain false (push ex_chain true ex_cs1 ex_b1) ex_b1 = None /\
+  run ex_chain true [ex_b0; ex_tampered; ex_b1] = run ex_chain true [ex_b0; ex_b1].
+Proof. vm_compute. repeat split; reflexivity. Qed.
+
+(* the hypotheses of the tamper theorem are met by that pair *)
+Example tamper_hypotheses :
+  block_hash ex_b1 = Some (b_hash ex_b1) /\ b_hash ex_tampered = b_hash ex_b1 /\ committed ex_tampered <> committed ex_b1.
+Proof. split; [vm_compute; reflexivity|]. split; [reflexivity|]. vm_compute. discriminate. Qed.
+
+Example block_wf_nontrivial : block_wf ex_b1.
+Proof.
+  unfold block_wf, u64, small, updated_ok. vm_compute.
+  repeat split; try reflexivity; try discriminate.
+Qed.
+
+(* the stale-old-root input (fixed defect new-state:store-accepts-stale-old-root): a block sealed on the
+   EMPTY chain (old root 0, declared root = commitment of (empty state + its diff)), renumbered and
+   re-parented onto the head of a non-empty chain with its hash recomputed: rejected with either backend flag *)
+Definition ex_dx : sdiff := {| sd_deployed := [(200, 501)]; sd_replaced := []; sd_nonces := [];
+  sd_storage := [(200, [(9, 99)])]; sd_declared_v0 := [501]; sd_declared_v1 := []; sd_migrated := [] |}.
+Definition ex_stale : block :=
+  let g := seal ex_chain empty_chain (ex_raw (0, 13, 4) ex_dx) in
+  let h := b_hdr g in
+  let hdr := {| h_number := 1; h_state_root := h_state_root h; h_sequencer := h_sequencer h; h_timestamp := h_timestamp h;
+                h_tx_count := h_tx_count h; h_event_count := h_event_count h; h_blob := h_blob h;
+                h_l1_gas_wei := h_l1_gas_wei h; h_l1_gas_fri := h_l1_gas_fri h; h_l1_data_wei := h_l1_data_wei h;
+                h_l1_data_fri := h_l1_data_fri h; h_l2_wei := h_l2_wei h; h_l2_fri := h_l2_fri h;
+                h_version_str := h_version_str h; h_ver := h_ver h; h_parent := b_hash ex_b0 |} in
+  let b1 := {| b_hdr := hdr; b_txs := b_txs g; b_rcpts := b_rcpts g; b_diff := b_diff g; b_hash := TC 0; b_old_root := b_old_root g |} in
+  {| b_hdr := hdr; b_txs := b_txs g; b_rcpts := b_rcpts g; b_diff := b_diff g;
+     b_hash := match block_hash b1 with Some x => x | None => TC 0 end; b_old_root := b_old_root g |}.
+Example stale_old_root_rejected :
+  b_old_root ex_stale = TC 0 /\ block_hash ex_stale = Some (b_hash ex_stale) /\ linked ex_cs1 ex_stale /\
+  accept ex_chain true ex_cs1 ex_stale = None /\ accept ex_chain false ex_cs1 ex_stale = None /\
+  accept ex_chain true empty_chain (seal ex_chain empty_chain (ex_raw (0, 13, 4) ex_dx)) <> None.
+Proof. vm_compute. repeat split; try reflexivity. discriminate. Qed.
